@@ -230,6 +230,15 @@ func c15RunCell(c c15Cell, s *gen.Stream, validQuote bool) (key, oracle, detail 
 	return "", "", ""
 }
 
+// bothDev implements client.Device and client.QuoteProvider at once.
+type bothDev struct {
+	scriptDev
+	prov scriptProvider
+}
+
+func (b *bothDev) IsSupported() error                       { return b.prov.IsSupported() }
+func (b *bothDev) GetRawQuote(rd [64]byte) ([]uint8, error) { return b.prov.GetRawQuote(rd) }
+
 var c15File string
 
 // c15PlainFile returns the path of an ordinary (empty) file: it opens, and every ioctl on it fails.
@@ -362,7 +371,7 @@ func TestC15(t *testing.T) {
 		case 1:
 			p.bytes = []byte{}
 		case 2:
-			p.bytes = s.Bytes(rapid.IntRange(1, 3000).Draw(t, "n"))
+			p.bytes = s.Bytes(rapid.OneOf(rapid.IntRange(1, 3000), rapid.SampledFrom([]int{labi.ReqBufSize - 1, labi.ReqBufSize, labi.ReqBufSize + 1, 20000, 70000})).Draw(t, "n"))
 		case 3:
 			p.bytes = gen.RandomRefQuote(s, 4, 50, 0).Encode()
 		}
@@ -432,6 +441,61 @@ func TestC15(t *testing.T) {
 		gen.NonTrivial("provider", supported, len(p.bytes), p.err != nil)
 		gen.Class(fmt.Sprintf("provider:supported=%v,err=%v", supported, p.err != nil))
 		gen.Sample("provider", map[string]any{"supported": supported, "bytes": len(p.bytes), "err": p.err != nil})
+	})
+	// a value that is both a device and a quote provider: whichever route the client takes for it, GetRawQuote and
+	// GetQuote take the same one — the parsed form equals parsing the raw form
+	gen.Prop(t, "device-that-is-also-a-provider", gen.N(1500, 100000), func(t *rapid.T) {
+		s := gen.NewStream(rapid.Uint64().Draw(t, "content"), "c15b")
+		devQuote := gen.RandomRefQuote(s, 4, 50, 0).Encode()
+		provQuote := gen.RandomRefQuote(s, 9, 70, 3).Encode()
+		mk := func() *bothDev {
+			b := &bothDev{}
+			b.scriptDev.outLen, b.scriptDev.data = uint32(len(devQuote)), append(append([]byte{}, devQuote...), make([]byte, labi.ReqBufSize-len(devQuote))...)
+			s.Fill(b.scriptDev.tdReport[:])
+			b.prov.bytes = provQuote
+			return b
+		}
+		b1, b2 := mk(), mk()
+		switch rapid.IntRange(0, 3).Draw(t, "fault") {
+		case 1:
+			b1.scriptDev.quoteErr, b2.scriptDev.quoteErr = errors.New("scripted device failure"), errors.New("scripted device failure")
+		case 2:
+			b1.prov.err, b2.prov.err = errors.New("scripted provider failure"), errors.New("scripted provider failure")
+		case 3:
+			b1.prov.supported, b2.prov.supported = errors.New("not supported"), errors.New("not supported")
+		}
+		var rd [64]byte
+		s.Fill(rd[:])
+		gen.Eval()
+		var raw []byte
+		v1 := gen.Call(func() error {
+			var err error
+			raw, err = client.GetRawQuote(b1, rd)
+			return err
+		})
+		var parsed any
+		v2 := gen.Call(func() error {
+			var err error
+			parsed, err = client.GetQuote(b2, rd)
+			return err
+		})
+		rp := map[string]any{"kind": "provider"}
+		if v1.Panicked() || v2.Panicked() {
+			gen.Fail(t, gen.Violation{Key: "both-panic", Oracle: "never a crash", Detail: v1.Panic + v2.Panic, Replay: rp})
+			return
+		}
+		gen.Class("device-and-provider:raw=" + v1.Short())
+		gen.NonTrivial("both", v1.Short(), v2.Short(), rd[:4])
+		if v1.Accepted() != v2.Accepted() {
+			gen.Fail(t, gen.Violation{Key: "getquote-verdict:device-and-provider", Oracle: "the parsed form equals parsing the raw form", Detail: fmt.Sprintf("a value implementing both interfaces: GetRawQuote %s, GetQuote %s", v1, v2), Replay: rp})
+			return
+		}
+		if v1.Accepted() {
+			want, perr := abi.QuoteToProto(raw)
+			if perr != nil || !proto.Equal(want.(*pb.QuoteV4), parsed.(*pb.QuoteV4)) {
+				gen.Fail(t, gen.Violation{Key: "getquote-differs:device-and-provider", Oracle: "the parsed form equals parsing the raw form", Detail: fmt.Sprintf("a value implementing both interfaces: GetRawQuote returned %d bytes (device quote: %v, provider quote: %v), GetQuote parsed something else", len(raw), bytes.Equal(raw, devQuote), bytes.Equal(raw, provQuote)), Replay: rp})
+			}
+		}
 	})
 	gen.Direct(t, "unsupported-type", func(t *testing.T) {
 		for _, x := range []any{nil, 5, "dev", struct{}{}, (*scriptProvider)(nil)} {
